@@ -74,6 +74,12 @@ func argFromSpec(s string) *variants.Variant {
 		return variants.VariantFromTimeSpan(time.Duration(x) * time.Millisecond)
 	case "a":
 		return variants.VariantFromArray([]*variants.Variant{variants.VariantFromInteger(1), variants.VariantFromString("x")})
+	case "i32":
+		return variants.NewVariant(int32(5))
+	case "u":
+		return variants.NewVariant(uint(7))
+	case "u32":
+		return variants.VariantFromObject(uint32(9))
 	case "ag": // an array that grew through an indexed write past its end (the skipped positions are nulls)
 		g := variants.VariantFromArray([]*variants.Variant{variants.VariantFromInteger(1)})
 		g.SetByIndex(4, variants.VariantFromInteger(9))
@@ -320,7 +326,7 @@ func execC08(seg []Ev) []Ev {
 }
 
 var c08generic = []string{"i:0", "i:3", "i:-8", "l:5", "l:-2", "f:1.5", "f:-2.25", "d:2.5", "d:4", "d:-0.5", "s:abc", "s:3", "s:", "b:true", "b:false", "n",
-	"t:86400", "ts:1500", "a", "ag", "o", "i:1", "i:2", "d:0", "d:1", "i:9223372036854775807", "l:-9223372036854775808", "l:9007199254740993", "d:NaN", "d:+Inf", "f:0.1"}
+	"t:86400", "ts:1500", "a", "ag", "i32", "u", "u32", "o", "i:1", "i:2", "d:0", "d:1", "i:9223372036854775807", "l:-9223372036854775808", "l:9007199254740993", "d:NaN", "d:+Inf", "f:0.1"}
 
 var hostZoneForNext = ""
 
